@@ -54,28 +54,6 @@ Definition c16_cert_mismatches (v : variant) (h : list step_obs) (certs : list (
 
 (** ** The monitor *)
 
-(** Well-formed Host header: host, host:port, [v6], [v6]:port (port: digits). *)
-Definition wf_host (h : str) : bool :=
-  match h with
-  | [] => false
-  | x5b :: r =>
-    match index_byte r x5d with
-    | Some e =>
-      negb (contains_byte (firstn e r) x5b) &&
-      match skipn (S e) r with
-      | [] => true
-      | c :: port => byte_eqb c colon && forallb is_digit port
-      end
-    | None => false
-    end
-  | _ =>
-    negb (contains_byte h x5b) && negb (contains_byte h x5d) &&
-    match index_byte h colon with
-    | None => true
-    | Some i => negb (Nat.eqb i 0) && forallb is_digit (skipn (S i) h)
-    end
-  end.
-
 Fixpoint snap_get (l : list snap_svc) (n : str) : option snap_svc :=
   match l with
   | [] => None
